@@ -86,6 +86,25 @@ def run_scenario(scenario, seed, monitors=(), trace=False, settle=None, worker_h
                     return
                 node = alive[0]
             via = ex.get("via", "api")
+            if via in ("raw", "raw-noid"):
+                # the "low-level" way: a client publishes the start event straight to the shared event queue, naming the
+                # state machine (and here the execution, so that its ARN is known); "raw-noid" leaves the AMQP message
+                # id unset, as a client that sets nothing but the content type does
+                from lsfsim.peers import NativeChannel, Props
+                if not hasattr(res, "_rawch"):
+                    res._rawch = NativeChannel(sim, "raw-starter")
+                sm = res.sm_arns[ex["machine"]]
+                sfx = "-qq" if (scenario.get("config") or {}).get("queue_type") == "quorum" else ""
+                body = json.dumps({"data": ex["input"], "context": {"StateMachine": {"Id": sm},
+                                                                     "Execution": {"Name": ex["name"]}}})
+                mid = None if via == "raw-noid" else "raw-%d-%s" % (i, ex["name"])
+                sim.broker.basic_publish(res._rawch.rec, "", "asl_workflow_events" + sfx, body.encode(),
+                                         Props(content_type="application/json", message_id=mid, delivery_mode=2))
+                parts = sm.split(":")
+                res.exec_arns[ex["name"]] = ":".join(parts[:5] + ["execution", parts[6], ex["name"]])
+                res.start_calls.append((ex, {"status": 200, "json": {"executionArn": res.exec_arns[ex["name"]]},
+                                             "t0": sim.now, "raw": True}))
+                return
             params = {"stateMachineArn": res.sm_arns[ex["machine"]], "input": json.dumps(ex["input"])}
             if ex.get("name") is not None:
                 params["name"] = ex["name"]
